@@ -3,6 +3,7 @@ C01, flatten-level clauses: non-vacuity on states where something really is prun
 that the pruning is not idempotent on trees (so the second-round-trip clause is about flat output).
 -/
 import Proofs.C01Examples
+import Proofs.C01JoinedExamples
 import Proofs.C01Second
 import Proofs.C01Third
 namespace Flatland.Flat.Proofs
